@@ -609,6 +609,25 @@ pub proof fn lemma_roofing_alpha(c: real, s: real)
     ensures 0real < rdiv(c + s - 1real, c) < 2real
 { lemma_rdiv_mul(c + s - 1real, c); lemma_roofing_alpha_core(c, s, rdiv(c + s - 1real, c)); }
 
+// ---------- TrendFlex / ReFlex: shared two-pole smoother on a delay line, and the deviation sums ----------
+pub open spec fn flex_a1(n: nat) -> real { r_exp(rdiv(-(888442402435real / 100000000000real), n as real)) }
+pub open spec fn flex_b1(n: nat) -> real { 2real * flex_a1(n) * r_cos(rdiv(444221201218real / 100000000000real, n as real)) }
+pub open spec fn flex_c3(n: nat) -> real { -flex_a1(n) * flex_a1(n) }
+pub open spec fn flex_c1(n: nat) -> real { 1real - flex_b1(n) - flex_c3(n) }
+// q is the delay line of earlier filter values (after eviction); fewer than two entries truncate the recursion
+pub open spec fn flex_filt(q: Seq<T>, x1: T, y: T, n: nat) -> real {
+    let base = rdiv(flex_c1(n) * (y.v() + x1.v()), 2real);
+    if q.len() == 0 { base } else if q.len() == 1 { base + flex_b1(n) * q[0].v() }
+    else { base + flex_b1(n) * q[q.len() - 1].v() + flex_c3(n) * q[q.len() - 2].v() }
+}
+pub open spec fn tf_dsum(q: Seq<T>, filt: real, i: int) -> real decreases i {
+    if i <= 0 { 0real } else { tf_dsum(q, filt, i - 1) + (filt - q[q.len() - 1 - (i - 1)].v()) }
+}
+pub open spec fn rf_dsum(q: Seq<T>, filt: real, slope: real, i: int) -> real decreases i {
+    if i <= 0 { 0real } else { rf_dsum(q, filt, slope, i - 1) + ((filt + ((i - 1) as real) * slope) - q[q.len() - 1 - (i - 1)].v()) }
+}
+pub open spec fn flex_evict(q: Seq<T>, n: nat) -> Seq<T> { if q.len() >= n && q.len() > 0 { q.drop_first() } else { q } }
+
 // ---------- division ----------
 pub broadcast proof fn lemma_rdiv_mul(a: real, b: real)
     requires b != 0real
